@@ -221,6 +221,11 @@ Compute(o, a) ==
       [] o = "inv"   -> LET c == InvCode(a[1]) IN
                         IF c.det = 0 THEN [IMat(a[1]) EXCEPT !.warn = TRUE]
                         ELSE Out("Mat4", "rat", [k \in 1..16 |-> <<c.num[k], c.det>>], FALSE)
+      \* ~ of the rational matrix Dm / sc (integer matrix over a common denominator): the formula is homogeneous, so
+      \* the inverse is sc * adj(Dm) / det(Dm); det(Dm / sc) = det(Dm) / sc^4 is tiny but zero only when det(Dm) is
+      [] o = "invq"  -> LET Dm == a[1][1]  sc == a[1][2]  c == InvCode(Dm) IN
+                        IF c.det = 0 THEN [Out("Mat4", "rat", [k \in 1..16 |-> <<Dm[k], sc>>], FALSE) EXCEPT !.warn = TRUE]
+                        ELSE Out("Mat4", "rat", [k \in 1..16 |-> <<sc * c.num[k], c.det>>], FALSE)
       [] o = "fromtrans" -> IMat(FromTrans(a[1]))
       [] o = "fromscale" -> IMat(FromScale(a[1]))
       [] o = "translate" -> IMat(Translate(a[1], a[2]))
@@ -315,11 +320,16 @@ MatCases(n) ==
     \/ (n = 4 /\ \E A \in Elems(4, 5) \cup WPerms \cup {D(4, i) : i \in 1..NP} : Case("transpose", <<A>>))
     \/ (n = 4 /\ \E o \in {"row", "col"}, i \in 1..NT, k \in 0..3 : Case(o, <<D(4, i), k>>))
 
-InvCases == \E A \in InvSet : Case("inv", <<A>>)
+Scales == {128, 1000}        \* common denominators: determinants down to 1e-12 (128 is exact in binary floating point)
+InvCases == \/ (\E A \in InvSet : Case("inv", <<A>>))
+            \/ (\E A \in InvSet, sc \in Scales : Case("invq", << <<A, sc>> >>))
+\* projective-shaped matrices (fourth column is not (0,0,0,1)): translate must be the product, not an entry update
+Projective == {<<2, 0, 0, 0,  0, 3, 0, 0,  0, 0, -2, -1,  0, 0, -5, 0>>,
+               <<1, 0, 0, 2,  0, 1, 0, -1,  0, 0, 1, 3,  4, 5, 6, 0>>}
 
 CtorCases ==
     \/ (\E o \in {"fromtrans", "fromscale"}, v \in W(3) : Case(o, <<v>>))
-    \/ (\E A \in {Ident(4), FromScale(<<2, -3, 4>>)} \cup {D(4, i) : i \in 1..NT}, v \in Extra(3) \cup Basis(3, -2)
+    \/ (\E A \in {Ident(4), FromScale(<<2, -3, 4>>)} \cup Projective \cup {D(4, i) : i \in 1..NT}, v \in Extra(3) \cup Basis(3, -2)
            : Case("translate", <<A, v>>))
     \/ (\E x \in Boxes : Case("ortho", <<x>>))
 
@@ -329,6 +339,7 @@ BigCases ==
     \/ (\E m \in BigLo..BigHi : Case("mmul", <<D(3, 2 * m), D(3, 2 * m + 1)>>))
     \/ (\E m \in BigLo..BigHi : Case("mulv", <<D(4, m), DV(4, m)>>))
     \/ (\E m \in BigLo..BigHi : Case("inv", <<D(4, m)>>))
+    \/ (\E m \in BigLo..BigHi : Case("invq", << <<D(4, m), IF m % 2 = 0 THEN 128 ELSE 1000>> >>))
 
 Init == \/ (\E n \in 2..4 : VecGroup(n) \in Groups /\ VecCases(n))
         \/ ("swz" \in Groups /\ SwzCases)
@@ -463,6 +474,16 @@ Law_Inverse == Is("inv") =>
     /\ (d = 0 <=> res.warn)
     /\ (d = 0 => res.val = A1 /\ res.fmt = "int")
     /\ (d # 0 => res.fmt = "rat" /\ \A k \in 1..16 : res.val[k] = <<Adj(A1, 4)[k], d>>)
+
+\* the same on rational operands Dm / sc with a tiny determinant: still a two-sided inverse, and no singular warning
+\* unless the determinant is exactly zero.  (Dm / sc) @ (num / d) = I  <=>  Dm @ num = sc * d * I
+Law_InverseScaled == Is("invq") =>
+    LET Dm == A1[1]  sc == A1[2]  d == Det(Dm, 4)  num == [k \in 1..16 |-> res.val[k][1]] IN
+    /\ InvCode(Dm).det = d /\ InvCode(Dm).num = Adj(Dm, 4)
+    /\ (d = 0 <=> res.warn)
+    /\ (d = 0 => \A k \in 1..16 : res.val[k] = <<Dm[k], sc>>)
+    /\ (d # 0 => /\ \A k \in 1..16 : res.val[k][2] = d
+                 /\ MMul(4, Dm, num) = ScaleM(sc * d, Ident(4)) /\ MMul(4, num, Dm) = ScaleM(sc * d, Ident(4)))
 
 \* the constructors build the stated transforms: a point p (row <<p, 1>>) is moved / scaled as said
 Pt(p) == <<p[1], p[2], p[3], 1>>
